@@ -479,3 +479,131 @@ Example C13_inserted_bytes_real :
   exists r, parse_blocks o_plain [x61; x00] = Ok r /\
             map (fun e => bi_content (snd e)) (bleaves [] (br_root r)) = [[x61; xef; xbf; xbd; x0a]].
 Proof. exact inserted_bytes_real. Qed.
+
+(* ====================================================================== PARSER MODEL, the whole parser, second round
+   The three features C13_parse_refuted lists as OPEN (footnotes, front_matter_delimiter, spoiler) are proved:
+   Proofs/InertParse2Blocks.v (block phase: bo_spoiler, bo_front_matter_delimiter = GAP 4 above),
+   Proofs/InertParse2Fn.v (no FootnoteReference out of the inline parser with the switch off; Footnotes.process is the
+   identity on a tree without FootnoteReference / FootnoteDefinition), Proofs/InertParse2Features.v (composition, status
+   lists), Proofs/InertParse2Html.v (which feature fields the HTML renderer's own record reads). *)
+From V Require Import Model.Footnotes Model.FrontMatter Spec.FrontMatterSpec Proofs.InertParse2Blocks Proofs.InertParse2Fn
+  Proofs.InertParse2Features Proofs.InertParse2Html.
+From V Require Spec.EscapeSpec.
+
+(* ---- block phase, EQUALITY of the two runs (panics included).
+   1: the row scanner.  scanners.re `table_spoiler = ['|']['|']` is two bytes of the CLASS {apostrophe, bar}; without a
+      bar in s both rule blocks of table_cell agree; 2: the documented trigger (two bars) is not enough (FINDING,
+      class spoiler_quote_bar); 3: table.rs row; 4, 5: the block phase for bo_spoiler; 6..8: for
+      bo_front_matter_delimiter (nothing but the feed prologue reads it) *)
+Definition C13_blocks_spoiler_front_matter_statement : Prop :=
+  (forall s sp sp', nob x7c s -> Scan.scan_table_cell s sp = Scan.scan_table_cell s sp') /\
+  (Triggers.occurs [x7c; x7c] quote_bar = false /\
+   Scan.scan_table_cell quote_bar true = Some 4 /\ Scan.scan_table_cell quote_bar false = Some 2) /\
+  (forall s sp sp', nob x7c s -> row s sp = row s sp') /\
+  (forall v v' o x, (forall l, block_lines o x l -> nob x7c (Feed.norm_line l)) ->
+     parse_blocks (bo_with_spoiler v o) x = parse_blocks (bo_with_spoiler v' o) x) /\
+  (forall v v' o x, nob x7c x -> parse_blocks (bo_with_spoiler v o) x = parse_blocks (bo_with_spoiler v' o) x) /\
+  (forall d d' o st ls, run_lines (bo_with_front_matter d o) st ls = run_lines (bo_with_front_matter d' o) st ls) /\
+  (forall d o x, split_off_front_matter x d = Ok None ->
+     parse_blocks (bo_with_front_matter (Some d) o) x = parse_blocks (bo_with_front_matter None o) x) /\
+  (forall d o x, EscapeSpec.utf8_valid x = true -> delim_ok d = true -> first_line_is d x = false ->
+     parse_blocks (bo_with_front_matter (Some d) o) x = parse_blocks (bo_with_front_matter None o) x).
+
+(* ---- footnotes: the invariant through the inline parser and the footnote pass.
+   nfr_tree t: no node of t is a FootnoteReference or a FootnoteDefinition.
+   With the switch ON and no definition the pass is not the identity on references (each becomes the text [^name]:
+   Proofs/InertParse2Fn.process_no_defs_example); on a tree without references and definitions it is. *)
+Definition C13_footnote_pass_clean_statement : Prop :=
+  (forall memo o u inp lo sl refmap maxref rs0 ch rs, io_footnotes o = false ->
+     parse_inlines memo o u inp lo sl refmap maxref rs0 = Ok (ch, rs) -> forallb nfr_tree ch = true) /\
+  (forall fold pres perm t, nfr_tree t = true -> process fold pres perm t = t) /\
+  (forall o u x r t1, po_footnotes o = false -> parse_blocks (bopts_of o u) x = Ok r ->
+     inline_phase o u (br_root r) (br_refmap r) (br_max_ref_size r) = Ok t1 -> nfr_tree t1 = true).
+
+(* ---- the whole parser.  1: footnotes; 2: spoiler (equality); 3: front matter with the check's delimiter; 4..6: front
+   matter with any delimiter (equality when the splitter / the line-based specification of Props/C20.v finds none);
+   7: every feature of the second list; 8..10: that list extends the first, contains every feature that was open, and
+   together with the refuted list covers all_features *)
+Definition C13_parse_inert2_statement : Prop :=
+  parse_inert_statement Footnotes /\
+  (forall o u x, free_of_heads Spoiler x = true ->
+     parse_document_model (po_with Spoiler true o) u x = parse_document_model (po_with Spoiler false o) u x) /\
+  parse_inert_statement FrontMatter /\
+  (forall d o u x, split_off_front_matter x d = Ok None ->
+     parse_document_model (po_with_fm (Some d) o) u x = parse_document_model (po_with_fm None o) u x) /\
+  (forall d o u x, EscapeSpec.utf8_valid x = true -> delim_ok d = true -> first_line_is d x = false ->
+     parse_document_model (po_with_fm (Some d) o) u x = parse_document_model (po_with_fm None o) u x) /\
+  (forall d t o u x, In t d -> nob t x ->
+     okle (parse_document_model (po_with_fm (Some d) o) u x) (parse_document_model (po_with_fm None o) u x)) /\
+  (forall F, parse_inert_proved2 F = true -> parse_inert_statement F) /\
+  (forall F, parse_inert_proved F = true -> parse_inert_proved2 F = true) /\
+  (forall F, parse_inert_open F = true -> parse_inert_proved2 F = true) /\
+  (forall F, xorb (parse_inert_proved2 F) (parse_inert_refuted2 F) = true).
+
+(* ---- the final status: 17 proved, 6 refuted (the same six as in C13_parse_refuted), none open; and under the
+   documented trigger STRING (two bars) spoiler is refuted on the whole parser: two single bars (known class C13-c) and an
+   apostrophe next to a bar in a table row (FINDING, class spoiler_quote_bar) *)
+Definition C13_parse_status2_statement : Prop :=
+  (filter parse_inert_proved2 all_features
+   = [Strikethrough; Tagfilter; Table; Superscript; HeaderIds; Footnotes; FrontMatter; MultilineBlockQuotes; Alerts;
+      MathDollars; MathCode; WikilinksAfterPipe; WikilinksBeforePipe; Underline; Subscript; Spoiler; Smart] /\
+   filter parse_inert_refuted2 all_features
+   = [Autolink; Tasklist; DescriptionLists; Greentext; RelaxedTasklist; RelaxedAutolinks] /\
+   filter parse_inert_open2 all_features = []) /\
+  (forall F, parse_inert_refuted2 F = true -> ~ parse_inert_statement F) /\
+  ~ parse_inert_free_statement Spoiler /\
+  parse_free_witness Spoiler (po_with Table true po_none) quote_bar_witness.
+
+(* ---- HTML.  1: the corollary of C13_html_inert for the larger list; 2: spoiler with equality;
+   3..5: the renderer's record has the fields o_footnotes, o_wikilinks_after, o_wikilinks_before and never reads them;
+   6..8: it READS o_tagfilter (at HtmlBlock / HtmlInline nodes only), o_header_ids (at Heading nodes only) and
+   o_relaxed_autolinks (at a Link whose parent is a Link only: known class C13-e) *)
+Definition C13_html_inert2_statement : Prop :=
+  (forall F slug ro o u x h, parse_inert_proved2 F = true -> free_of_heads F x = true ->
+     md_html slug ro (po_with F true o) u x = Ok h -> md_html slug ro (po_with F false o) u x = Ok h) /\
+  (forall slug ro o u x, free_of_heads Spoiler x = true ->
+     md_html slug ro (po_with Spoiler true o) u x = md_html slug ro (po_with Spoiler false o) u x) /\
+  (forall slug v ro t, html slug (ro_with_footnotes v ro) t = html slug ro t) /\
+  (forall slug v ro t, html slug (ro_with_wikilinks_after v ro) t = html slug ro t) /\
+  (forall slug v ro t, html slug (ro_with_wikilinks_before v ro) t = html slug ro t) /\
+  (forall slug v v' ro t, allp not_raw_html None t = true ->
+     html slug (ro_with_tagfilter v ro) t = html slug (ro_with_tagfilter v' ro) t) /\
+  (forall slug v v' ro t, allp not_heading None t = true ->
+     html slug (ro_with_header_ids v ro) t = html slug (ro_with_header_ids v' ro) t) /\
+  (forall slug v v' ro t, allp not_link_in_link None t = true ->
+     html slug (ro_with_relaxed_autolinks v ro) t = html slug (ro_with_relaxed_autolinks v' ro) t).
+
+(* one pinned theorem for the five statements above (one Print Assumptions walks the whole parser model once) *)
+Theorem C13_second_round :
+  C13_blocks_spoiler_front_matter_statement /\ C13_footnote_pass_clean_statement /\ C13_parse_inert2_statement /\
+  C13_parse_status2_statement /\ C13_html_inert2_statement.
+Proof.
+  exact (conj (conj scan_table_cell_nobar (conj scan_table_cell_quote_bar_refuted (conj row_nobar
+        (conj spoiler_blocks_inert_lines (conj spoiler_blocks_inert (conj run_lines_front_matter_blind
+        (conj front_matter_blocks_inert front_matter_blocks_inert_first_line)))))))
+        (conj (conj nfr_parse_inlines (conj process_clean inline_phase_clean))
+        (conj (conj parse_footnotes_inert (conj parse_spoiler_inert (conj parse_front_matter_inert
+        (conj parse_front_matter_inert_split (conj parse_front_matter_inert_spec
+        (conj parse_front_matter_inert_missing_byte (conj parse_inert_partial2 (conj parse_inert_proved2_extends
+        (conj parse_inert_open2_closed parse_inert_status_complete2)))))))))
+        (conj (conj parse_inert_status_lists2 (conj parse_inert_refuted_sound
+        (conj parse_spoiler_free_refuted_single_bar parse_spoiler_free_refuted_quote_bar)))
+              (conj html_inert_partial2 (conj html_spoiler_inert (conj html_footnotes_blind (conj html_wikilinks_after_blind
+        (conj html_wikilinks_before_blind (conj html_tagfilter (conj html_header_ids html_relaxed_autolinks))))))))))).
+Qed.
+Print Assumptions C13_second_round.
+
+(* non-vacuity: a document without left bracket on which both runs give the same tree, one with a footnote on which
+   they differ; a table without bar (same block tree either way) and the quote-bar document; front matter that is
+   split off; the three renderer reads are real *)
+Example C13_parse2_nonvacuous :
+  ((free_of_heads Footnotes fn_free_doc = true /\
+    exists t, parse_document_model (po_with Footnotes true po_none) u_id fn_free_doc = Ok t /\
+              parse_document_model (po_with Footnotes false po_none) u_id fn_free_doc = Ok t) /\
+   (free_of_heads Footnotes fn_doc = false /\
+    res_map nkinds (parse_document_model (po_with Footnotes true po_none) u_id fn_doc)
+    <> res_map nkinds (parse_document_model (po_with Footnotes false po_none) u_id fn_doc))) /\
+  (allp not_link_in_link None link_in_link = false /\
+   html (fun x => x) (ro_with_relaxed_autolinks true ro_plain) link_in_link
+   <> html (fun x => x) (ro_with_relaxed_autolinks false ro_plain) link_in_link).
+Proof. exact (conj parse_inert2_nonvacuous html_relaxed_autolinks_read). Qed.
